@@ -113,6 +113,10 @@ type modelCase struct {
 	// row ranges [lo,hi) of table parameters, in Params
 	TableRows [][2]int
 	NoteLag   int
+	// OwnStates: the vectorised run uses the array the model's own InitialiseStates(NCells) returns (as ow-sim's
+	// ensemble runner and the C entry point with initStates do) instead of a caller-allocated one; States then
+	// holds exactly those initial values
+	OwnStates bool
 }
 
 func paramRange(model string, p sim.ParameterDescription) rng2 {
@@ -501,7 +505,17 @@ func (mc *modelCase) runVector(backend string, oc, ot int, m sim.TimeSteppingMod
 			m.InitialiseDimensions(dims)
 		}
 		m.ApplyParameters(pArr)
+		if mc.OwnStates {
+			sArr = m.InitialiseStates(mc.NCells)
+		}
 		m.Run(iArr, sArr, oArr)
+		if mc.OwnStates {
+			for c := 0; c < mc.NCells; c++ {
+				for k := 0; k < ns; k++ {
+					sb[c*ns+k] = sArr.Get2(c, k)
+				}
+			}
+		}
 	})
 	res = &runResult{Out: append([]float64{}, ob...), OC: oc, NO: no, OT: ot, States: append([]float64{}, sb...), NS: ns,
 		ParamsAfter: append([]float64{}, pb...), InputsAfter: append([]float64{}, ib...), Intact: a.intact()}
@@ -516,6 +530,9 @@ func (mc *modelCase) runVector(backend string, oc, ot int, m sim.TimeSteppingMod
 	if !shapesOK {
 		res.ArgsChanged = fmt.Sprintf("shapes after Run: params %v states %v inputs %v outputs %v", pArr.Shape(), sArr.Shape(), iArr.Shape(), oArr.Shape())
 		return
+	}
+	if mc.OwnStates {
+		return // the model's own state array: the re-run check is done on the caller-allocated variant of the case
 	}
 	for c := 0; c < mc.NCells; c++ {
 		copy(sb[c*ns:(c+1)*ns], mc.States[c])
